@@ -316,6 +316,30 @@ def stream_items(tier, seed, want):
         inp_ab = inputs_all(4, [gen.A, gen.B])
         for g in gen.abandon_family():
             add(g, inp_ab, prio=True)
+        # an emission KEPT by a lookahead (rewind / and_is) lies ahead of the cursor; an attempt abandoned afterwards emits at an
+        # earlier position: the truncation on backtracking must remove the abandoned one and only that one (the list is a stack
+        # in emission order, whatever the positions)
+        ANY_, A_, B_ = ('any',), ('just', [gen.A]), ('just', [gen.B])
+        E1 = lambda a: ('validate', 'always', 5, 1, a)
+        E2 = lambda a: ('validate', 'always', 6, 1, a)
+        rest = ('toslice', ('iterp', ('rep', ('any',), 0, None)))
+        deep = [('then', ANY_, E1(ANY_)), ('then', ANY_, ('then', ANY_, E1(ANY_))), ('then', A_, E1(('oneof', [gen.A, gen.B])))]
+        las = [lambda d: ('rewind', d), lambda d: ('andis', ('then', ANY_, ANY_), d), lambda d: ('andis', d, ANY_)]
+        abandoned = [('then', E2(ANY_), ('cfail', 3)), ('then', E2(A_), B_), E2(('then', A_, ('then', B_, B_))), ('then', E2(ANY_), ('then', E2(ANY_), ('cfail', 3)))]
+        conts = [lambda ab: ('or', ab, ANY_), lambda ab: ('ornot', ab), lambda ab: ('collect', 'vec', ('rep', ab, 0, None)),
+                 lambda ab: ('choices', [ab, ('then', ANY_, ('cfail', 3)), ANY_]), lambda ab: ('then', ('not', ab), ANY_),
+                 lambda ab: ('collect', 'vec', ('sep', ANY_, ab, 0, None, False, True))]
+        for d in deep:
+            for la in las:
+                for ab in abandoned:
+                    for ct in conts:
+                        add(('then', la(d), ('then', ct(ab), rest)), inp_ab, prio=True)
+        # two emitters at different nodes (nested, in sequence, across a choice): the ORDER of the reported errors is the order
+        # of emission
+        for g in base[:150 if tier == 'quick' else 1500]:
+            for g2 in gen.insert_at_nodes(g, gen.EMITTERS[0])[:4]:
+                for g3 in gen.insert_at_nodes(g2, E2, pred=lambda t: t[0] != 'validate')[:3]:
+                    add(g3, inp01)
     if 'rec' in want:
         # nested recovery: an inner recovery that succeeds (emitting), then a later failure, then an outer strategy
         nested = []
@@ -782,6 +806,8 @@ class C08(SpecProp):
     streams = ['rec']
     with_errors = True
     quick_cap = 9000
+    ek_filter = ('rich', 'empty', 'cheap', 'simple')
+    bins = ['h_str_rich', 'h_slice_rich', 'h_str_simple', 'h_slice_simple', 'h_str_cheap', 'h_slice_cheap', 'h_str_empty', 'h_slice_empty']
     why = 'recovery result differs from the recovery reading'
     rule = ('C01-class grammars with recover_with(via_parser | skip_until | skip_then_retry_until) inserted at every node position; '
             'observation = output + error list (recovered errors matched by position in the spec, by full content in the model)')
@@ -1507,6 +1533,23 @@ class C11(Prop):
                 lines.append(case_line(f'm{n}p', main, inp, defs=[d]))
                 lines.append(case_line(f'm{n}c', main, inp, defs=[erase_memo(d)]))
                 n += 1
+        # a memoized parser that FAILS at its first token as a non-first alternative, inside a combinator that then rewrites or
+        # drops the pending error (labelled, map_err, not), and is visited again at the same position from outside: what the table
+        # stores must be the parser's own failure, not that failure merged with whatever was pending when it ran
+        A_, B_, E_ = ('just', [gen.A]), ('just', [gen.B]), ('just', [gen.EA])
+        for body in [B_, ('then', B_, A_), ('oneof', [gen.B, gen.COMMA]), ('then', ('just', [gen.B]), ('ornot', A_)), ('just', [gen.B, gen.B])]:
+            d = ('memo', 53, body)
+            c = ('call', 0)
+            for w in gen.DECORATIONS + [lambda a: ('not', a), lambda a: ('ornot', a), lambda a: ('rewind', a), lambda a: a]:
+                for first in (A_, ('then', A_, A_), E_):
+                    inner = w(('or', first, c))
+                    mains = [('or', ('then', inner, E_), ('then', c, ('just', [gen.COMMA]))),
+                             ('choices', [('then', inner, E_), ('then', c, ('just', [gen.COMMA])), ('then', ('any',), c)]),
+                             ('then', ('ornot', ('then', inner, E_)), c)]
+                    for main in mains:
+                        lines.append(case_line(f'm{n}p', main, inp, defs=[d]))
+                        lines.append(case_line(f'm{n}c', main, inp, defs=[erase_memo(d)]))
+                        n += 1
         # a memoized parser that SUCCEEDS while emitting non-fatal errors / feeding the inspector, abandoned by the enclosing
         # choice and visited again at the same position — with its output needed, and with its output discarded (check mode):
         # whatever the table remembers, the second visit must report what a fresh run reports
